@@ -20,6 +20,7 @@ def readTriple (ts : List String) : Option ((Bytes × Bytes × Bytes) × List St
   pure ((a, m, d), ts)
 
 def hashioHandler : Handler
+  | "compressor", [name] => do pure (if Hashio.knownCompressor (← hx name) then "ok" else "err")
   -- hashpipe <names> <chunks> <digest table>: pass-through, sizes, sums
   | "hashpipe", _mode :: ts => do
       let (names, ts) ← readCounted readBytes ts
